@@ -519,6 +519,20 @@ pub fn check_main(prop: &str, tier: &str) -> i32 {
             }
         }
     }
+    // ... and a short input on which recovery can insert for ever, under a clock fast enough for
+    // the search to build chains as long as the cost type allows, on a 2 MB thread stack
+    if prop == "C07" {
+        deep_probes += 1;
+        let st = run_guarded(&exe, &["r-chain", "2"], 120.0);
+        if st != Some(0) {
+            n_viol += 1;
+            exit = EXIT_VIOLATION;
+            let replay = json!({"engine": "R-chain", "property": "C07", "class": "C07-a-abort-after-long-repair-chain", "stack_mb": 2,
+                "detail": format!("`R0: R1 't3' R0 | 't0' | R0 't3'; R1: R0 | 't3' R1;` on `t3 t3 t3 t0 t0 t3 t3` with 1.5 us per clock read: the parser process did not return (child status {st:?}) on a 2 MB stack")});
+            let path = write_replay(&vdir, &format!("C07-C07-a-abort-after-long-repair-chain-{seed}.json"), &replay).unwrap();
+            viol_lines.push(format!("VIOLATION property=C07 replay={} class=C07-a-abort-after-long-repair-chain occurrences=1 :: {}", path.display(), replay["detail"].as_str().unwrap()));
+        }
+    }
     let mut other_props = 0u64;
     for (p, class, cnt, sample) in groups {
         if p != prop {
